@@ -144,6 +144,32 @@ func (n *FileNode) EmptyStarts(withheld map[string]bool) []int64 {
 	return out
 }
 
+// LeadingEmpty reports, per block (KeyString), whether every occurrence of it
+// is an empty-span child preceded, within its parent, only by empty-span
+// siblings (i.e. it sits at the position where a reader of that parent starts).
+func (n *FileNode) LeadingEmpty() map[string]bool {
+	out := map[string]bool{}
+	var rec func(m *FileNode)
+	rec = func(m *FileNode) {
+		leading := true
+		for _, c := range m.Children {
+			k := c.Cid.KeyString()
+			isLead := leading && c.End == c.Start
+			if prev, seen := out[k]; !seen {
+				out[k] = isLead
+			} else {
+				out[k] = prev && isLead
+			}
+			if c.End > c.Start {
+				leading = false
+			}
+			rec(c)
+		}
+	}
+	rec(n)
+	return out
+}
+
 // EmptySpan reports, per block (KeyString), whether every occurrence of it has
 // an empty byte span (zero-length chunks and subtrees made of them).
 func (n *FileNode) EmptySpan() map[string]bool {
